@@ -3,6 +3,7 @@
 A candidate is kept only when the same violation signature recurs.  Candidates of one ddmin level
 are evaluated in parallel on zygotes that all have the failing run's hash seed."""
 import copy
+import time
 
 from . import ops as O
 from .child import dg
@@ -26,16 +27,28 @@ def to_replay_spec(spec, res):
     r = copy.deepcopy(spec)
     r['strategy'] = {'kind': 'replay', 'switches': res['switches'], 'finishes': res['finishes'], 'first': res['first']}
     r['faults'] = [[f[0], f[1], f[2], f[3]] for f in res['fired']]
-    r['gcs'] = []
     r['gcs_at'] = res.get('gcs_at') or []
     r['record'] = True
     return r
 
 
 class Budget:
-    def __init__(self, n):
-        self.left = n
+    """Bounded by a number of candidate executions and by wall-clock time."""
+
+    def __init__(self, n, wall_s=None):
+        self._left = n
         self.used = 0
+        self.deadline = None if wall_s is None else time.time() + wall_s
+
+    @property
+    def left(self):
+        if self.deadline is not None and time.time() > self.deadline:
+            return 0
+        return self._left
+
+    @left.setter
+    def left(self, v):
+        self._left = v
 
 
 def _ddmin(items, build, test_many, budget):
@@ -93,9 +106,9 @@ def _drop_op(spec, c, j):
     return s
 
 
-def minimise(spec, sig, test_many, max_execs=300):
+def minimise(spec, sig, test_many, max_execs=300, wall_s=None):
     """spec must be an explicit replay spec that reproduces `sig`.  Returns (spec, executions used)."""
-    b = Budget(max_execs)
+    b = Budget(max_execs, wall_s)
     cur = copy.deepcopy(spec)
 
     def try_one(cand):
